@@ -716,6 +716,90 @@ impl<C: Config> Engine<C> {
         self.computation_graph.database.node_info.get(query_id).await.unwrap()
     }
 
+    /// Whether the firewall `query_id` is settled in the epoch `timestamp`:
+    /// it has been verified in this epoch and it has no backward projection
+    /// left to perform.
+    ///
+    /// The reads take no query lock. `set_computed` writes the pending flag
+    /// (and the dirty marks of the firewall's propagation) before
+    /// `last_verified`, so the order of the two reads below matters: once
+    /// `last_verified` shows the current epoch the flag and the marks of that
+    /// run are visible too.
+    pub(super) async fn is_firewall_settled(
+        &self,
+        query_id: &QueryID,
+        timestamp: Timestamp,
+    ) -> bool {
+        let database = &self.computation_graph.database;
+
+        database
+            .last_verified
+            .get(query_id)
+            .await
+            .is_some_and(|x| x.0 == timestamp)
+            && database
+                .pending_backward_projection
+                .get(query_id)
+                .await
+                .is_none()
+    }
+
+    /// Whether every firewall that separates `callee` from the inputs below
+    /// it, as far as `callee`'s record knows them, is settled in the epoch
+    /// `timestamp` (see [`Self::is_firewall_settled`]).
+    ///
+    /// Only then does "no dirty mark on the edge to `callee`" mean that
+    /// nothing below `callee` has changed: dirty propagation stops at a
+    /// firewall and resumes above it only when the firewall is repaired and
+    /// its value turns out to have changed.
+    pub(super) async fn is_firewall_frontier_settled(
+        &self,
+        callee: &QueryID,
+        timestamp: Timestamp,
+    ) -> bool {
+        let database = &self.computation_graph.database;
+
+        match database.query_kind.get(callee).await {
+            Some(
+                QueryKind::Input
+                | QueryKind::Executable(ExecutionStyle::ExternalInput),
+            ) => true,
+
+            Some(QueryKind::Executable(ExecutionStyle::Firewall)) => {
+                self.is_firewall_settled(callee, timestamp).await
+            }
+
+            Some(QueryKind::Executable(
+                ExecutionStyle::Normal | ExecutionStyle::Projection,
+            )) => {
+                let Some(callee_info) = database.node_info.get(callee).await
+                else {
+                    return false;
+                };
+
+                for firewall in
+                    callee_info.transitive_firewall_callees().iter()
+                {
+                    if !self.is_firewall_settled(firewall, timestamp).await {
+                        return false;
+                    }
+                }
+
+                true
+            }
+
+            None => false,
+        }
+    }
+
+    /// Reads the node info of a query that may not have been computed yet.
+    pub(super) async fn try_get_node_info(
+        &self,
+        query_id: &QueryID,
+    ) -> Option<NodeInfo> {
+        self.computation_graph.database.node_info.get(query_id).await
+    }
+
     pub(super) async fn get_external_input_queries(
         &self,
         stable_type_id: &StableTypeID,
@@ -822,24 +906,60 @@ impl<C: Config, Q: Query> Snapshot<C, Q> {
         &mut self,
         clean_edges: Vec<QueryID>,
         new_tfc: Option<Interned<TransitiveFirewallCallees>>,
+        new_forward_edge_observation: Option<ForwardEdgeObservation<C>>,
         timestamp: Timestamp,
     ) {
         crate::verif_point!("cl.publish", Some(self.query_id()), 0);
         let mut tx = self.engine().new_write_transaction();
         crate::verif_pause!("cq.start", Some(self.query_id()));
 
+        let mut firewall_set_changed = false;
+
         let new_node_info = if let Some(x) = new_tfc {
             let mut current_node_info = self.node_info().await.unwrap();
+            let old_fingerprint =
+                current_node_info.transitive_firewall_callees_fingerprint;
 
             current_node_info.transitive_firewall_callees = x;
             current_node_info.transitive_firewall_callees_fingerprint = self
                 .engine()
                 .hash(&current_node_info.transitive_firewall_callees);
 
+            firewall_set_changed = old_fingerprint
+                != current_node_info.transitive_firewall_callees_fingerprint;
+
             Some(current_node_info)
         } else {
             None
         };
+
+        // A projection whose firewall set has changed tells its callers, as
+        // in `execute_query`: dirty propagation from below stopped at it and
+        // its value has not changed, so nothing else would make the queries
+        // above rebuild their sets. The projections above it are reached by
+        // backward projection.
+        if firewall_set_changed
+            && self.query_kind().await.is_some_and(QueryKind::is_projection)
+        {
+            tx = self
+                .engine()
+                .dirty_propagate_from_batch(
+                    std::iter::once(*self.query_id()),
+                    tx,
+                )
+                .await;
+
+            self.engine()
+                .computation_graph
+                .database
+                .pending_backward_projection
+                .insert(
+                    *self.query_id(),
+                    PendingBackwardProjection(timestamp),
+                    &mut tx,
+                )
+                .await;
+        }
 
         for callee in clean_edges.iter().copied() {
             let edge = Edge { from: *self.query_id(), to: callee };
@@ -858,6 +978,15 @@ impl<C: Config, Q: Query> Snapshot<C, Q> {
                 .database
                 .node_info
                 .insert(*self.query_id(), node_info, &mut tx)
+                .await;
+        }
+
+        if let Some(observation) = new_forward_edge_observation {
+            self.engine()
+                .computation_graph
+                .database
+                .forward_edge_observation
+                .insert(*self.query_id(), observation, &mut tx)
                 .await;
         }
 
